@@ -14,8 +14,10 @@
 (*         1 = header complete but the swamp name behind it is not,        *)
 (*         2 = header and name complete                                    *)
 (*   ents  the blocks' entries in file order; an entry is <<k, v>>:        *)
-(*         v > 0 a put of value v, v = 0 a delete; <<0,0>> stands for a    *)
-(*         partially written (torn) block                                  *)
+(*         v > 0 a put of value v, v = 0 a delete; <<0,1>> and <<0,2>> are *)
+(*         partially written (torn) blocks: <<0,1>> less than a complete   *)
+(*         block header plus one payload byte (the reader takes that for   *)
+(*         the end of the file), <<0,2>> a block cut inside its payload    *)
 (*   dur   how many leading entries are on stable storage (-1: not even    *)
 (*         the header is); a power failure cuts the file back to that      *)
 (* One run of compaction is the sequence                                   *)
@@ -52,7 +54,9 @@ VARIABLES main, temp,   \* the two files
 vars == <<main, temp, ref, pc, ep, idx, todo, appends, runs, last>>
 view == <<main, temp, ref, pc, ep, idx, todo, appends, runs>>
 
-Torn == <<0, 0>>
+TornHdr == <<0, 1>>
+TornPay == <<0, 2>>
+IsTorn(e) == e[1] = 0
 NoFile == [ex |-> FALSE, hdr |-> 0, ents |-> <<>>, dur |-> -1]
 NewFile == [ex |-> TRUE, hdr |-> 0, ents |-> <<>>, dur |-> -1]
 Empty == [k \in Keys |-> 0]
@@ -68,8 +72,10 @@ Apply(m, s) ==
 \* what loading a file yields: a map, or ERR when the file cannot be read to its end
 Load(f) ==
   IF ~f.ex THEN Empty
-  ELSE IF f.hdr # 2 \/ Torn \in Range(f.ents) THEN ERR
-  ELSE Apply(Empty, f.ents)
+  ELSE IF f.hdr # 2 THEN ERR
+  ELSE LET n == Len(f.ents)
+           body == IF n > 0 /\ f.ents[n] = TornHdr THEN SubSeq(f.ents, 1, n - 1) ELSE f.ents
+       IN IF \E i \in DOMAIN body : IsTorn(body[i]) THEN ERR ELSE Apply(Empty, body)
 
 Live(m) == {k \in Keys : m[k] > 0}
 
@@ -176,13 +182,13 @@ Abort(keep) ==
   /\ EndRun /\ last' = Obs("Abort")
   /\ UNCHANGED main
 
-\* the process dies (power = FALSE; a block being written stays as a torn tail when torn = TRUE) or the
-\* machine loses power (power = TRUE: every file falls back to its durable part)
+\* the process dies (power = FALSE; a block being written stays as a torn tail of kind torn = 1, 2) or
+\* the machine loses power (power = TRUE: every file falls back to its durable part)
 Crash(power, torn) ==
   /\ pc # "idle" \/ last.a = "Rename"
-  /\ torn => (~power /\ pc = "writing")
+  /\ torn \in 0..2 /\ (torn > 0 => (~power /\ pc = "writing"))
   /\ temp' = IF power THEN PowerImg(temp)
-             ELSE IF torn THEN [temp EXCEPT !.ents = Append(@, Torn)] ELSE temp
+             ELSE IF torn > 0 THEN [temp EXCEPT !.ents = Append(@, <<0, torn>>)] ELSE temp
   /\ main' = IF power THEN PowerImg(main) ELSE main
   /\ pc' = "idle" /\ runs' = IF pc = "idle" THEN runs ELSE runs + 1
   /\ last' = Obs("Crash")
@@ -203,7 +209,7 @@ Next ==
   \/ \E k \in todo : WriteTemp(<< <<k, idx[k]>> >>)
   \/ SyncTemp \/ CloseTemp \/ Rename
   \/ \E b \in BOOLEAN : Abort(b)
-  \/ \E p, t \in BOOLEAN : Crash(p, t)
+  \/ \E p \in BOOLEAN, t \in 0..2 : Crash(p, t)
 
 Spec == Init /\ [][Next]_vars
 
